@@ -312,6 +312,19 @@ def main():
             r32 = rg.astype(np.float32)
             out.write({"id": rid, "kind": "astype", "nt": True, "a": q(rg.dV, S) + q(rg.dhdX, S), "b": q(r32.dV, S) + q(r32.dhdX, S), "tol": 8,
                        "dtype": str(r32.dV.dtype)})
+            # every cached array, incl. the second derivatives, on cells whose Jacobian is not the identity (sheared + scaled);
+            # as a copy and in place
+            d = mesh.points.shape[1]
+            A = np.eye(d) * 0.75
+            A[0, 1] = 0.25
+            m2 = fem.Mesh(mesh.points @ A.T, mesh.cells, mesh.cell_type)
+            for how in ("copy", "inplace"):
+                rh = cls(m2, hess=True)
+                ref = [np.array(getattr(rh, k), float) for k in ("h", "dhdr", "dXdr", "drdX", "dV", "dhdX", "d2hdXdX")]
+                r32 = rh.astype(np.float32, copy=(how == "copy"))
+                got = [np.asarray(getattr(r32, k), float) for k in ("h", "dhdr", "dXdr", "drdX", "dV", "dhdX", "d2hdXdX")]
+                out.write({"id": rid + "-hess-" + how, "kind": "astype", "nt": True, "a": sum((q(x, S) for x in ref), []), "b": sum((q(x, S) for x in got), []),
+                           "tol": 16, "dtype": str(r32.dV.dtype)})
     out.close()
 
 
